@@ -151,22 +151,22 @@ def _trace_of(sig: tuple) -> list[dict]:
              'fresh': r[7]} for r in sig]
 
 
-_TREES: dict = {}
-_DEPTH_OF: list = []
-_MEMBERS: list = []
+_WORKER: dict = {}
 
 
-def _replay_pair(mi: int) -> dict:
+def _replay_pair(task: tuple) -> dict:
     """Worker process: replay the tree of histories for one pair; return the distinct recorded traces."""
-    global _MEMBERS  # noqa: PLW0603
+    mi, plan_file = task
     try:
-        if not _MEMBERS:
-            _MEMBERS = h.discover()      # same order in every process
-        m = _MEMBERS[mi]
+        if not _WORKER:
+            with open(plan_file) as f:
+                _WORKER.update(json.load(f))
+            _WORKER['members'] = h.discover()      # same order in every process
+        m = _WORKER['members'][mi]
         m.prepare()
         sigs = set()
         replays = skipped = 0
-        for beh in _TREES[_DEPTH_OF[mi]]:
+        for beh in _WORKER['trees'][str(_WORKER['depth_of'][mi])]:
             tr = replay(m, beh)
             if tr is None:
                 skipped += 1
@@ -186,7 +186,10 @@ def check(run, replay_path=None):
     old_flag = xs.MANDATORY_VALUE_CHECKING
     xs.MANDATORY_VALUE_CHECKING = False   # library switch: harness documents need not be schema-complete
     try:
-        _check(run)
+        if replay_path:
+            _replay_one(run, replay_path)
+        else:
+            _check(run)
     finally:
         xs.MANDATORY_VALUE_CHECKING = old_flag
         for name in os.listdir(SPEC_DIR):
@@ -194,37 +197,27 @@ def check(run, replay_path=None):
                 os.remove(os.path.join(SPEC_DIR, name))
 
 
-def _check(run):
-    import time
-    t0 = time.time()
-    phases = {}
-    # 1. design: exhaustive model check, defect models, trees of histories (TLC processes run side by side)
-    from concurrent.futures import ThreadPoolExecutor
-    d_obj, d_obj_inherited, d_first, d_inherited = run.pick((4, 3, 3, 2), (5, 4, 4, 3))
-    depths = sorted({d_obj, d_obj_inherited, d_first, d_inherited})
-    with ThreadPoolExecutor(max_workers=4) as pool:
-        f_mc = pool.submit(run_tlc, 'Defaults', 'Defaults_mc.cfg', coverage=True, workers=2)
-        f_tree = pool.submit(tree, depths[-1])
-        f_defects = [pool.submit(defect_model, sw, prop) for sw, prop in DEFECTS[:run.pick(2, len(DEFECTS))]]
-        run.add_tlc(f_mc.result(), ALL_OPS)
-        res, deepest = f_tree.result()
-        run.add_tlc(res)
-        # the histories of exactly d < D calls are the prefixes of the histories of D calls (some call is always
-        # enabled and the numbering conventions are prefix closed)
-        trees = {depths[-1]: deepest}
-        for d in depths[:-1]:
-            uniq = {}
-            for b in deepest:
-                uniq.setdefault(json.dumps(b[:d + 1], sort_keys=True), b[:d + 1])
-            trees[d] = list(uniq.values())
-        for f in f_defects:
-            f.result()
-            run.count('defect_models_rejected_by_tlc')
-    run.note('exhaustive', True)
-    run.note('model_constants', {'instances': N, 'written_values': 2, 'actions': ALL_OPS})
+def _replay_one(run, path: str):
+    """--replay: run the stored history for the stored pair again and let TLC judge the recorded trace."""
+    with open(path) as f:
+        data = json.load(f)['replay']
+    members = h.discover()
+    mi = next(i for i, m in enumerate(members) if m.ident == data['pair'])
+    members[mi].prepare()
+    tr = replay(members[mi], data['behaviour'])
+    if tr is None:
+        raise MachineryError(f'{data["pair"]} does not offer a call of {data["behaviour"]}')
+    print(f'replayed {data["pair"]}:')
+    for r in tr:
+        print('  ', r)
+    sig = _sig(tr)
+    run.distinct_traces.add(sig)
+    judge(run, members, {sig: 1 << mi}, [sig], [tr])
 
-    phases['tlc_model_and_trees'] = round(time.time() - t0, 1)
-    # 2. reflection: every (class, member) pair
+
+def _plan(run, trees: dict, depth_choice: tuple):
+    """2. reflection: every (class, member) pair, and the depth of the tree of histories it is replayed with."""
+    d_obj, d_obj_inherited, d_first, d_inherited = depth_choice
     members = h.discover()
     obj_pairs = [m for m in members if m.kind == 'obj']
     if len(obj_pairs) < 20 or len(members) < 200:
@@ -234,7 +227,9 @@ def _check(run):
     for m in members:
         first = id(m.prop) not in seen_descriptors
         seen_descriptors.add(id(m.prop))
-        kind = (m.descriptor, m.container, type(getattr(m.prop, 'value_class', None)).__name__)
+        vcls = getattr(m.prop, 'value_class', None)
+        kind = (m.descriptor, m.container, 'plain' if vcls is None else
+                'container' if h._is_container(vcls) else 'data')  # noqa: SLF001
         representative = kind not in seen_kinds
         seen_kinds.add(kind)
         if m.kind == 'obj':
@@ -248,15 +243,53 @@ def _check(run):
                        'distinct_descriptors': len(seen_descriptors),
                        'pairs_per_tree_depth': {str(d): depth_of.count(d) for d in sorted(set(depth_of))}})
     run.note('tree_sizes', {str(d): len(b) for d, b in trees.items()})
+    return members, depth_of
 
-    # 3. spec -> code: replay (worker processes, one task per pair); identical abstract traces are judged once
-    global _TREES, _DEPTH_OF  # noqa: PLW0603
-    _TREES, _DEPTH_OF = trees, depth_of
+
+def _check(run):
+    import time
+    t0 = time.time()
+    phases = {}
+    # 1. design: exhaustive model check, defect models, tree of histories.  The TLC processes run side by side; the
+    #    replay workers are forked first (before any thread exists) and only need the tree, so the model check and
+    #    the defect models finish while the histories are being replayed.
     import multiprocessing as mp
-    order = sorted(range(len(members)), key=lambda i: -len(trees[depth_of[i]]) * (2 if members[i].container else 1))
-    nproc = max(1, min(8, (os.cpu_count() or 2) // 2))
-    with mp.get_context('fork').Pool(nproc) as pool:
-        results = pool.map(_replay_pair, order, chunksize=1)
+    from concurrent.futures import ThreadPoolExecutor
+    d_obj, d_obj_inherited, d_first, d_inherited = run.pick((4, 3, 3, 2), (5, 4, 4, 3))
+    depths = sorted({d_obj, d_obj_inherited, d_first, d_inherited})
+    nproc = max(1, min(12, (os.cpu_count() or 2) - 2))
+    plan_file = os.path.join(run.tmp, 'c12_plan.json')
+    with mp.get_context('fork').Pool(nproc) as workers, ThreadPoolExecutor(max_workers=4) as pool:
+        f_tree = pool.submit(tree, depths[-1])
+        f_mc = pool.submit(run_tlc, 'Defaults', 'Defaults_mc.cfg', coverage=True, workers=2)
+        f_defects = [pool.submit(defect_model, sw, prop) for sw, prop in DEFECTS[:run.pick(2, len(DEFECTS))]]
+        res, deepest = f_tree.result()
+        run.add_tlc(res)
+        # the histories of exactly d < D calls are the prefixes of the histories of D calls (some call is always
+        # enabled and the numbering conventions are prefix closed)
+        trees = {depths[-1]: deepest}
+        for d in depths[:-1]:
+            uniq = {}
+            for b in deepest:
+                uniq.setdefault(json.dumps(b[:d + 1], sort_keys=True), b[:d + 1])
+            trees[d] = list(uniq.values())
+        phases['tree_of_histories'] = round(time.time() - t0, 1)
+        members, depth_of = _plan(run, trees, (d_obj, d_obj_inherited, d_first, d_inherited))
+        with open(plan_file, 'w') as f:
+            json.dump({'trees': {str(d): b for d, b in trees.items()}, 'depth_of': depth_of}, f)
+        order = sorted(range(len(members)),
+                       key=lambda i: -len(trees[depth_of[i]]) * (2 if members[i].container else 1))
+        results = workers.map(_replay_pair, [(mi, plan_file) for mi in order], chunksize=1)
+        phases['replay'] = round(time.time() - t0, 1)
+        run.add_tlc(f_mc.result(), ALL_OPS)
+        for f in f_defects:
+            f.result()
+            run.count('defect_models_rejected_by_tlc')
+    run.note('exhaustive', True)
+    run.note('model_constants', {'instances': N, 'written_values': 2, 'actions': ALL_OPS})
+    phases['model_check_and_defect_models'] = round(time.time() - t0, 1)
+
+    # 3. identical abstract traces of different pairs are judged once
     by_member = dict(zip(order, results))
     users: dict[tuple, int] = {}        # distinct recorded trace -> bit mask of the pairs that produced it
     replays = skipped = resets = 0
@@ -295,11 +328,15 @@ def _check(run):
     run.sample({'pairs': [members[i].ident for i in range(len(members)) if users[sigs[-1]] >> i & 1][:3],
                 'trace': traces[-1]})
 
-    phases['replay'] = round(time.time() - t0, 1)
+    judge(run, members, users, sigs, traces)
+    phases['trace_validation_and_verdicts'] = round(time.time() - t0, 1)
+    run.note('seconds_elapsed_after_phase', phases)
+    run.assumptions += ASSUMPTIONS
+
+
+def judge(run, members, users, sigs, traces):
     # 4. code -> spec: TLC judges every distinct recorded trace
     rejects = tracecheck.validate(run, 'DefaultsTrace', 'DefaultsTrace.cfg', traces, chunk=6000)
-    phases['trace_validation'] = round(time.time() - t0, 1)
-    run.note('seconds_elapsed_after_phase', phases)
     by_trace: dict[int, list] = {}
     for (ti, li, clause) in rejects:
         by_trace.setdefault(ti, []).append((li, clause))
@@ -330,9 +367,9 @@ def _check(run):
             key = (m.descriptor, shared_by, rec['act'], clause)
             cur = found.get(key)
             if cur is None:
-                cur = found[key] = {'pair': None, 'members': set(), 'histories': 0}
+                cur = found[key] = {'pair': None, 'members': set(), 'distinct_traces': 0}
             cur['members'].add(m.ident)
-            cur['histories'] += 1
+            cur['distinct_traces'] += 1
             if cur['pair'] is None or (li, len(beh), m.ident) < (cur['failing_record'], len(cur['behaviour']),
                                                                   cur['pair']):
                 cur.update({'pair': m.ident, 'behaviour': beh, 'trace': traces[ti], 'failing_record': li,
@@ -352,20 +389,27 @@ def _check(run):
                       f'identity={rec["ref"]} fresh={rec["fresh"]}; {len(info["members"])} (class, member) pairs '
                       f'affected, e.g. {", ".join(x.split(".", 1)[1] for x in info["members"][:4])}',
                       info)
-    run.assumptions += [
-        'abstract value of a member = canonical form (verif.mdibharness.canon) of the member value read through the '
-        'real property descriptors; the table canonical form -> abstract value is learnt per pair on private copies '
-        'before any history is replayed',
-        'MutateNested writes every simple member (string / decimal / integer) and every list of the nested object '
-        '(one more level for nested data objects) in place; list members are changed with slice assignment',
-        'xml_structure.MANDATORY_VALUE_CHECKING (library switch) is off while the harness writes its XML documents; '
-        'mandatory members are filled with placeholder values',
-        'if a history changed a class level default, the harness restores it before the next history (histories are '
-        'independent experiments)',
-        'a member that is absent in the XML may be read as the default value, as None or as an empty value of its '
-        'own: the statement only requires it to be private',
-        'copy operations driven: copy.deepcopy, ContainerBase.mk_copy, update_from_other_container',
-    ]
+
+
+ASSUMPTIONS = [
+    'abstract value of a member = canonical form (verif.mdibharness.canon) of the member value read through the '
+    'real property descriptors; the table canonical form -> abstract value is learnt per pair on private copies '
+    'before any history is replayed',
+    'MutateNested writes every simple member (string / decimal / integer) and every list of the nested object '
+    '(one more level for nested data objects) in place; a list is changed by writing an attribute of each present '
+    'element and then slice-assigning the new content',
+    'xml_structure.MANDATORY_VALUE_CHECKING (library switch) is off while the harness writes its XML documents; '
+    'mandatory members are filled with placeholder values',
+    'if a history changed a class level default, the harness restores it before the next history (histories are '
+    'independent experiments)',
+    'a member that is absent in the XML may be read as the default value, as None or as an empty value of its '
+    'own: the statement only requires it to be private',
+    'copy operations driven: copy.deepcopy, ContainerBase.mk_copy, update_from_other_container',
+    'identity is compared for the member value, the lists inside it, their mutable elements and data objects nested '
+    'up to two levels',
+    'pairs whose class cannot perform a call at all (listed under calls_the_library_cannot_perform) are replayed '
+    'without the histories that contain that call',
+]
 
 
 def _op_txt(op: dict) -> str:
